@@ -632,6 +632,45 @@ def rule_ag_reg(repo, col):
                 return [const_str(x) for x in e.elts]
             return None
 
+        def per_call_keys(store):
+            """`for k in PARAM: reg[k] = f` inside a nested function that
+            is called with literal key tuples: (keys given at every call,
+            keys given at some call), else None."""
+            par_ = {}
+            for p_ in ast.walk(func):
+                for c_ in ast.iter_child_nodes(p_):
+                    par_[id(c_)] = p_
+            cur, loop, nested = store, None, None
+            while id(cur) in par_:
+                cur = par_[id(cur)]
+                if isinstance(cur, ast.For) and loop is None:
+                    loop = cur
+                if isinstance(cur, ast.FunctionDef) and cur is not func:
+                    nested = cur
+                    break
+            if loop is None or nested is None or not isinstance(
+                    loop.iter, ast.Name) or not isinstance(
+                    loop.target, ast.Name) or \
+                    dotted(store.targets[0].slice) != loop.target.id:
+                return None
+            params = [a_.arg for a_ in nested.args.args]
+            if loop.iter.id not in params:
+                return None
+            i = params.index(loop.iter.id)
+            sets = []
+            for c_ in ast.walk(func):
+                if isinstance(c_, ast.Call) and isinstance(
+                        c_.func, ast.Name) and c_.func.id == nested.name:
+                    a_ = c_.args[i] if len(c_.args) > i else kwarg(
+                        c_, loop.iter.id)
+                    ks = const_keys(a_) if a_ is not None else None
+                    if ks is None:
+                        return None
+                    sets.append(set(ks))
+            if not sets:
+                return None
+            return set.intersection(*sets), set.union(*sets)
+
         def mapping(e):
             """dict of key -> dotted function name, or None."""
             if isinstance(e, ast.Dict) and all(
@@ -658,7 +697,15 @@ def rule_ag_reg(repo, col):
                 if const_str(n.targets[0].slice):
                     out[const_str(n.targets[0].slice)] = dotted(n.value)
                 else:
-                    unresolved.add(var)
+                    ks = per_call_keys(n)
+                    if ks is None:
+                        unresolved.add(var)
+                    else:
+                        common, some = ks
+                        for k_ in common:
+                            out[k_] = dotted(n.value)
+                        if some - common:
+                            per_axis.append((n, sorted(some - common)))
             if isinstance(n, ast.Assign) and dotted(n.targets[0]) == var and \
                     isinstance(n.value, ast.Call) and \
                     call_name(n.value) == 'defaultdict' and n.value.args and \
@@ -698,8 +745,16 @@ def rule_ag_reg(repo, col):
         return fallback
     wvar = registry_var(fw, 'formatter')
     rvar = registry_var(fr, 'parser')
+    per_axis = []
     wreg, wdef = registry(fw, wvar)
     rreg, rdef = registry(fr, rvar)
+    for node_, keys_ in per_axis:
+        col.bad(rule, TABLE, 'Table.from_hdf5', 'per-axis-registry', node_,
+                'the special-cased categories %s are registered for one '
+                'axis only: the other side of the round trip chooses the '
+                'layout by category name on both axes, so such a category '
+                'on the other axis is written in one layout and parsed as '
+                'another' % keys_)
     col.check(wdef == 'general_formatter' and rdef == 'general_parser', rule,
               TABLE, 'Table.to_hdf5', 'defaults', None,
               'general_formatter / general_parser are the defaults',
